@@ -38,17 +38,19 @@ class CheckC15(core.Check):
         rnd = random.Random(self.seed * 217645177 + 15)
         quick = self.tier == "quick"
         descs = []
-        depth = 3 if quick else 4
         for ci in CIPHERS:
             for be in (["D"] if quick else ["D", "R", "DR"]):
                 for mode in ("tr", "sl"):
+                    depth = 3 if quick else 4
+                    if (ci, be, mode) == ("ChaChaPoly", "D", "tr"):
+                        depth += 1
                     for ln in range(1, depth + 1):
                         for seq in itertools.product(range(len(SYMS)), repeat=ln):
                             if not any(SYMS[i][0] in "rm" for i in seq) or not any(SYMS[i][0] == "w" for i in seq):
                                 continue
                             descs.append((ci, be, mode, ".".join(map(str, seq))))
         self.exhaustive = True
-        for _ in range(3000 if quick else 100000):
+        for _ in range(8000 if quick else 300000):
             ln = rnd.randrange(4, 31)
             seq = [rnd.randrange(len(SYMS)) if rnd.random() < 0.5 else rnd.randrange(4) for _ in range(ln)]
             descs.append((rnd.choice(CIPHERS), rnd.choice(["D", "R", "DR"]), rnd.choice(["tr", "sl"]), ".".join(map(str, seq))))
